@@ -50,3 +50,11 @@ Theorem C18_no_silent_drop : forall s o r,
   In r (s_readers (fst (step s o))) \/ In (EReaderClosed r) (snd (step s o)).
 Proof. exact (td_step true). Qed.
 Print Assumptions C18_no_silent_drop.
+
+(* alwaysAvailable paths: the stream does not go away when the publisher leaves, and no reader is detached *)
+Theorem C18_always_available_publisher_leaves : forall s p,
+  s_closed s = false -> c_aa (s_conf s) = true ->
+  let s' := fst (step s (RemovePublisher p)) in
+  s_stream s' = s_stream s /\ s_readers s' = s_readers s.
+Proof. exact (c18_aa_publisher_leaves true). Qed.
+Print Assumptions C18_always_available_publisher_leaves.
